@@ -28,6 +28,7 @@ type odtPkg struct {
 	Content *Node
 	Styles  *Node
 	Members []writers.Member
+	Tables  []*Node // the table:table elements of the body (not the nested ones), in order
 }
 
 // odtStyleFor picks the style name; auto collects automatic (content.xml) styles,
@@ -260,7 +261,9 @@ func odtList(items []*lpara, level int, auto, named map[string]bool) *Node {
 	for i < len(items) {
 		item := E("text:list-item")
 		if items[i].Level == level {
-			item.Add(odtPara(items[i], auto, named))
+			if !items[i].NoPara {
+				item.Add(odtPara(items[i], auto, named))
+			}
 			i++
 		}
 		j := i
@@ -279,7 +282,13 @@ func odtList(items []*lpara, level int, auto, named map[string]bool) *Node {
 func odtTable(t *ltable, idx *int, auto, named map[string]bool) *Node {
 	*idx++
 	tbl := E("table:table").A("table:name", "Tbl"+strconv.Itoa(*idx))
-	if t.NoGrid {
+	if t.RawRepeat != "" {
+		// the first column element stands for RepeatN columns, the others follow one by one
+		tbl.Add(E("table:table-column").A("table:number-columns-repeated", rawAttr(t.RawRepeat)))
+		for c := t.RepeatN; c < t.C; c++ {
+			tbl.Add(E("table:table-column"))
+		}
+	} else if t.NoGrid {
 		tbl.Add(E("table:table-column").A("table:number-columns-repeated", strconv.Itoa(t.C)))
 	} else {
 		for c := 0; c < t.C; c++ {
@@ -295,10 +304,14 @@ func odtTable(t *ltable, idx *int, auto, named map[string]bool) *Node {
 				continue
 			}
 			tc := E("table:table-cell").A("office:value-type", "string")
-			if cell.CS > 1 {
+			if cell.RawCS != "" {
+				tc.A("table:number-columns-spanned", rawAttr(cell.RawCS))
+			} else if cell.CS > 1 {
 				tc.A("table:number-columns-spanned", strconv.Itoa(cell.CS))
 			}
-			if cell.RS > 1 {
+			if cell.RawRS != "" {
+				tc.A("table:number-rows-spanned", rawAttr(cell.RawRS))
+			} else if cell.RS > 1 {
 				tc.A("table:number-rows-spanned", strconv.Itoa(cell.RS))
 			}
 			for i := range cell.Paras {
@@ -326,7 +339,7 @@ func sortedKeys(m map[string]bool) []string {
 func writeOdt(r *hx.Rng, d *ldoc) odtPkg {
 	auto, named := map[string]bool{}, map[string]bool{"Standard": true}
 	text := E("office:text", E("text:sequence-decls", E("text:sequence-decl").A("text:name", "Table")))
-	var blocks []*Node
+	var blocks, bodyTables []*Node
 	tblIdx := 0
 	for i := 0; i < len(d.Blocks); i++ {
 		bl := d.Blocks[i]
@@ -334,6 +347,7 @@ func writeOdt(r *hx.Rng, d *ldoc) odtPkg {
 		switch {
 		case bl.T != nil:
 			n = odtTable(bl.T, &tblIdx, auto, named)
+			bodyTables = append(bodyTables, n)
 		case bl.P.Kind == "li":
 			var items []*lpara
 			j := i
@@ -364,7 +378,7 @@ func writeOdt(r *hx.Rng, d *ldoc) odtPkg {
 		autoStyles.Add(odtListStyles()...)
 	}
 	content := E("office:document-content", autoStyles, E("office:body", text)).A("office:version", "1.2")
-	pkg := odtPkg{Content: content}
+	pkg := odtPkg{Content: content, Tables: bodyTables}
 
 	manifest := `<?xml version="1.0" encoding="UTF-8"?>` + "\n" +
 		`<manifest:manifest xmlns:manifest="urn:oasis:names:tc:opendocument:xmlns:manifest:1.0" manifest:version="1.2">` +
